@@ -644,3 +644,223 @@ def parallel_real_oracle(c, o, s, which):
         if seq_tail.startswith('E:'):
             v.nontrivial = True
     return v
+
+
+# ---------------------------------------------------------------- group oracles (C03, C12) and C11, C14, C17
+
+def flat_stream(toks):
+    """the complete observable outcome of a next-only run, without growth markers"""
+    return [strip_growth(t) for t in toks]
+
+
+def config_group_oracle(group):
+    """C03: group = [(case, toks)] of the SAME input under different configurations; all flattened
+    streams must be identical (no reference model involved)."""
+    ref_case, ref = group[0]
+    a = flat_stream(ref)
+    for case, toks in group[1:]:
+        b = flat_stream(toks)
+        if a != b:
+            i = next((k for k in range(min(len(a), len(b))) if a[k] != b[k]), min(len(a), len(b)))
+            return 'configurations disagree at observation %d: %s... vs %s... (capacity %d/%s/chunk %d vs capacity %d/%s/chunk %d)' % (
+                i, (a[i] if i < len(a) else '<none>')[:70], (b[i] if i < len(b) else '<none>')[:70],
+                ref_case['cap'], ref_case['pol'], ref_case['chunk'], case['cap'], case['pol'], case['chunk'])
+    return None
+
+
+def logical_stream(fmt, toks):
+    """what must be invariant under LF/CRLF re-encoding: fields and line numbers"""
+    out = []
+    prev_rec = False
+    for t in toks:
+        t = strip_growth(t)
+        was_rec, prev_rec = prev_rec, False
+        if t.startswith('R:'):
+            f = parse_fields(t[2:])
+            prev_rec = True
+            if fmt == 'fa':
+                out.append(('R', f.get('h'), f.get('l'), f.get('n')))
+            else:
+                out.append(('R', f.get('h'), f.get('s'), f.get('q')))
+        elif t.startswith('P'):
+            # only the position reported right after a record is specified
+            if was_rec and t != 'P-':
+                out.append(('P', t[1:].split('.')[0]))
+        elif t.startswith('E:'):
+            out.append(('E', t.split('/m=')[0]))
+        else:
+            out.append((t,))
+    return out
+
+
+def recode_group_oracle(fmt, group):
+    """C12: the encodings of one well-formed file parse identically; no CR in any field."""
+    def trim(x):
+        while x and x[-1] == ('N',):
+            x = x[:-1]
+        return x
+    ref_case, ref = group[0]
+    a = trim(logical_stream(fmt, ref))
+    if any(x[0] == 'E' for x in a):
+        return 'a well-formed file produced an error: %s' % [x for x in a if x[0] == 'E'][0][1][:80]
+    for case, toks in group:
+        b = trim(logical_stream(fmt, toks))
+        if a != b:
+            i = next((k for k in range(min(len(a), len(b))) if a[k] != b[k]), min(len(a), len(b)))
+            return 'encodings of the same file parse differently at observation %d: %s vs %s' % (
+                i, str(a[i] if i < len(a) else None)[:90], str(b[i] if i < len(b) else None)[:90])
+        for x in b:
+            if x[0] == 'R':
+                fields = ''.join(v for v in x[1:3] if v) + (x[3] if fmt == 'fq' and x[3] else '')
+                raw = bytes.fromhex(fields.replace('.', ''))
+                if b'\r' in raw:
+                    return 'a carriage return shows up in a returned field'
+    return None
+
+
+def unchanged_oracle(case, toks):
+    """C11: concatenating write_unchanged of every record of a well-formed input reproduces the input
+    (FASTQ: final terminator added, trailing blank lines dropped; FASTA: leading blank lines dropped,
+    final terminator added)."""
+    v = Verdict()
+    fmt = case['fmt']
+    inp = bytes.fromhex(case['input']) if case['input'] != '-' else b''
+    us = []
+    for t in toks:
+        t = strip_growth(t)
+        if t.startswith('R:'):
+            us.append(bytes.fromhex(parse_fields(t[2:]).get('u', '')))
+        elif t.startswith('E:') or t in ('PANIC', 'HANG'):
+            v.failures.append('well-formed input produced %s' % t[:60])
+            return v
+    got = b''.join(us)
+    if fmt == 'fq':
+        # byte-exact except that trailing blank lines are dropped and a final terminator is added
+        if got.rstrip(b'\r\n') != inp.rstrip(b'\r\n') or (got and not got.endswith(b'\n')):
+            v.failures.append('unchanged output differs from the input: %r vs %r' % (got[-80:], inp[-80:]))
+    else:
+        want = inp.lstrip(b'\r\n')
+        if want and not want.endswith(b'\n'):
+            want += b'\n'
+        if got != want:
+            v.failures.append('unchanged output differs from the input: %r vs %r' % (got[:80], want[:80]))
+    v.nontrivial = len(us) > 0
+    return v
+
+
+def first_fail_kind(script):
+    for e in script.split(','):
+        if e.startswith('f'):
+            return e[1:]
+    return None
+
+
+def fault_oracle(case, toks, items):
+    """C14: records before the failure are the leading records of the input; the failing call returns
+    an I/O error with the injected kind; interrupted reads are invisible."""
+    v = Verdict()
+    fmt = case['fmt']
+    kind = first_fail_kind(case['script']) if case['script'] != '-' else None
+    if any(op[0] not in 'np' for op in case['ops']):
+        # general histories: every I/O error that surfaces carries the kind of the next injected failure
+        read_kinds = [e[1:] for e in case['script'].split(',') if e.startswith('f')] if case['script'] != '-' else []
+        seek_kinds = [e.split('.')[1] for e in case['seekfails'].split(',')] if case['seekfails'] != '-' else []
+        for idx, tok in enumerate(toks):
+            tok = strip_growth(tok)
+            if tok.startswith('E:io'):
+                got = tok[2:].split('/')[0].split('.')[1]
+                op = case['ops'][idx] if idx < len(case['ops']) else '?'
+                v.nontrivial = True
+                if op[0] in 'kK' and got in seek_kinds:
+                    seek_kinds.remove(got)
+                elif read_kinds and got == read_kinds[0]:
+                    read_kinds.pop(0)
+                else:
+                    v.failures.append('op %d (%s) reported I/O error kind %s; injected: reads %s, seeks %s' % (idx, op, got, read_kinds, seek_kinds))
+                    return v
+        return v
+    k = 0
+    for idx, tok in enumerate(toks):
+        tok = strip_growth(tok)
+        if tok in ('PANIC', 'HANG'):
+            v.failures.append('%s at op %d' % (tok, idx))
+            return v
+        if tok.startswith('P') or tok.startswith('C') or tok == 'Y':
+            continue
+        if tok.startswith('E:bl'):
+            v.domain_end = 'the policy refused'
+            return v
+        if tok.startswith('E:io'):
+            got = tok[2:].split('/')[0].split('.')[1]
+            if kind is None:
+                v.failures.append('an I/O error surfaced although the source never failed')
+            elif got != kind:
+                v.failures.append('the source failed with kind %s but the reader reported kind %s' % (kind, got))
+            v.nontrivial = True
+            return v
+        if k < len(items) and items[k][0] == 'rec':
+            if not tok.startswith('R:') or not rec_matches(fmt, parse_fields(tok[2:]), items[k]):
+                v.failures.append('op %d: before any source failure surfaced, expected record #%d, got %s' % (idx, k, tok[:80]))
+                return v
+            k += 1
+        elif k < len(items):
+            if not tok.startswith('E:') or not err_matches(fmt, tok, items[k], True):
+                v.failures.append('op %d: expected the format error %s, got %s' % (idx, items[k][1:], tok[:80]))
+            return v
+        else:
+            if tok != 'N':
+                v.failures.append('op %d: expected end of input, got %s' % (idx, tok[:80]))
+            return v
+    return v
+
+
+def rust_escape_default(b):
+    if b == 9:
+        return '\\t'
+    if b == 13:
+        return '\\r'
+    if b == 10:
+        return '\\n'
+    if b == 39:
+        return "\\'"
+    if b == 34:
+        return '\\"'
+    if b == 92:
+        return '\\\\'
+    if 32 <= b <= 126:
+        return chr(b)
+    return '\\u{%x}' % b
+
+
+def message_oracle(case, toks):
+    """C17 (second half): the human-readable message contains the reported values."""
+    v = Verdict()
+    fmt = case['fmt']
+    for tok in toks:
+        tok = strip_growth(tok)
+        if not tok.startswith('E:'):
+            continue
+        kind, args, msg = parse_err(tok)
+        if msg is None or kind in ('io', 'bl'):
+            continue
+        text = bytes.fromhex(msg).decode('utf-8', 'replace')
+        v.nontrivial = True
+        need = []
+        if fmt == 'fa' and kind == 'is':
+            need = ['line %s' % args[0], "'%s'" % rust_escape_default(int(args[1]))]
+        elif kind == 'is':
+            need = ['line %s' % args[1], "'%s'" % rust_escape_default(int(args[0]))]
+        elif kind == 'sep':
+            need = ['line %s' % args[1], "'%s'" % rust_escape_default(int(args[0]))]
+        elif kind == 'ul':
+            need = ['line %s' % args[2], 'sequence length is %s' % args[0], 'quality length is %s' % args[1]]
+        elif kind == 'ue':
+            need = ['line %s' % args[0]]
+        idarg = [a for a in args if a.startswith('=')]
+        if idarg:
+            need.append("record '%s'" % bytes.fromhex(idarg[0][1:]).decode('utf-8', 'replace'))
+        for n in need:
+            if n not in text:
+                v.failures.append('error message %r does not contain %r' % (text[:120], n))
+                return v
+    return v
